@@ -69,4 +69,16 @@ def distCfg : DistCfg := { zCmp := .eq }
 /-- the point about which the fall-back branch of `MeshVolumeRegion._circumradius` measures the vertices -/
 def fallbackCenter : Center := .position
 
+/-- `MeshVolumeRegion.minimumDistanceTo`: the nested-volume correction and the geometry of `_fclDistanceData` -/
+def volDistCfg : VolDistCfg :=
+  { posCmp := .gt, posThr := (0 : Rat), conn := .and,
+    nestedRet := (0 : Rat), bvhOnly := true }
+
+/-- `MeshVolumeRegion.isConvex` -/
+def convexCfg : ConvexCfg :=
+  { overrideFirst := true, needsTrimesh := true,
+    volLhs := fun o => o.vol,
+    volCmp := .ge,
+    volRhs := fun o => (((1 : Rat) - ((4722366482869645 / 4722366482869645213696) : Rat)) * o.hullVol) }
+
 end Scenic.Gen
